@@ -140,11 +140,14 @@ var discard = log.New(io.Discard, "", 0)
 
 // RunSession runs one B2F session between the two stations over a fresh link configured from sc.
 func RunSession(sc *Scenario, st map[string]*Station, r *Recorder, configure func(*Link), updaters map[string]fbb.StatusUpdater) Result {
-	return RunSessionOpts(sc, st, r, configure, updaters, false)
+	return RunSessionOpts(sc, st, r, configure, updaters, 0)
 }
 
 // RunSessionOpts is RunSession with the option of handing the sessions a transport that reports a transmit buffer.
-func RunSessionOpts(sc *Scenario, st map[string]*Station, r *Recorder, configure func(*Link), updaters map[string]fbb.StatusUpdater, tx bool) Result {
+// Watchdog is how long a session may take before both links are closed (a hang).
+var Watchdog = 20 * time.Second
+
+func RunSessionOpts(sc *Scenario, st map[string]*Station, r *Recorder, configure func(*Link), updaters map[string]fbb.StatusUpdater, txRate float64) Result {
 	l := NewLink(sc.Seed + int64(sc.ID)*7919)
 	if sc.Sched != "" {
 		l.Sched = sc.Sched
@@ -193,8 +196,8 @@ func RunSessionOpts(sc *Scenario, st map[string]*Station, r *Recorder, configure
 			sess.SetStatusUpdater(updaters[name])
 		}
 		var conn net.Conn = l.End(name)
-		if tx {
-			conn = &txEnd{End: l.End(name), rate: 1500}
+		if txRate > 0 { // a modem-like transmit buffer draining at txRate bytes per second
+			conn = &txEnd{End: l.End(name), rate: txRate}
 		}
 		go func() {
 			var rt ret
@@ -212,7 +215,7 @@ func RunSessionOpts(sc *Scenario, st map[string]*Station, r *Recorder, configure
 		}()
 	}
 	res := Result{Ret: map[string]string{}}
-	timeout := time.After(20 * time.Second)
+	timeout := time.After(Watchdog)
 	for i := 0; i < 2; i++ {
 		select {
 		case rt := <-done:
